@@ -61,7 +61,7 @@ CLAIMS = {
          "substitute (simultaneity: swap tables) of BDD and BCDD interpreted on structured operands and cubes over three modelled "
          "levels and compared with the fold of cofactors / the cofactor / the simultaneous substitution. Decides tag/dualisation "
          "plumbing, unit discipline and the inductive step; not substitute_prepare's table construction nor the induction itself.", "abstract interpretation of HIR dispatch tables", "3.4, 4 C04"),
- "C05": ("E-SLOT.bound, E-SLOT.model (add_node / get_slot_from_shared interpreted for six allocation sequences on a model store: every slot handed out once, OutOfMemory exactly when nothing is left), E-IDX.tagbits, E-SLAB.page (slab page initialisation of the pointer-based store interpreted with integer addresses), E-FREELIST.term.link (free list of the dynamic terminal store interpreted: sweep links, retain predicate, pop, OutOfMemory at the end). E-LIN(+.forget,.mint) + E-FREELIST(.count,.term) + E-CACHE.dm + E-CANON.swap + E-WHO + E-EVENT.gc-order + E-DBG + E-CFG.slabtype: edge linearity on every non-unwind path of every function body "
+ "C05": ("E-SLOT.bound, E-SLOT.model (add_node / get_slot_from_shared interpreted for six allocation sequences on a model store: every slot handed out once, OutOfMemory exactly when nothing is left), E-IDX.tagbits, E-SLAB.model (the pointer-based store's slab allocator interpreted: distinct slots, reuse of freed slots, chained pages), E-SLAB.page (slab page initialisation of the pointer-based store interpreted with integer addresses), E-FREELIST.term.link (free list of the dynamic terminal store interpreted: sweep links, retain predicate, pop, OutOfMemory at the end). E-LIN(+.forget,.mint) + E-FREELIST(.count,.term) + E-CACHE.dm + E-CANON.swap + E-WHO + E-EVENT.gc-order + E-DBG + E-CFG.slabtype: edge linearity on every non-unwind path of every function body "
          "(drop-elaborated MIR) plus the vetted-destructor table; thread-local free lists and node-count deltas are handed to the "
          "shared store by move only; level_swap releases a node's edges before unlinking children; frozen caller sets of the "
          "node-removal primitives and their gates; Manager::gc sweeps all inner-node levels before the terminal table; the apply cache (uncounted edges) stays locked and empty "
